@@ -140,6 +140,28 @@ theorem C16_fixed_dates_exact (c : Cfg) (zeit : Nat) (trig em ht orgH : Bool) (s
     simp only [hman, Bool.and_false, Bool.false_and, Bool.false_eq_true, if_false]
     split <;> simp_all
 
+/-- On the eve of the latest harvest date a standing crop without a harvest date gets one, whether it has
+emerged or not and whatever the trigger says (the test behind the emerged-crop branch, crop.go:549-555, is
+what covers a crop that has not emerged): the rotation cannot get stuck on a crop sown shortly before its
+latest harvest date. -/
+theorem C16_harvest_date_set_on_eve_of_latest_date (zeit : Nat) (em ht : Bool) (s : St)
+    (hg : growing zeit s = true) (h0 : s.ernte s.akf = 0) (he : zeit + 1 = s.ernte2 s.akf) :
+    (phyto zeit em ht s).ernte s.akf = zeit ∨ (phyto zeit em ht s).ernte s.akf = zeit + 1 := by
+  have hse : (sowEvent zeit s).ernte = s.ernte ∧ (sowEvent zeit s).ernte2 = s.ernte2 ∧ (sowEvent zeit s).akf = s.akf := by
+    unfold sowEvent; split <;> simp
+  obtain ⟨e1, e2, e3⟩ := hse
+  have key : ∀ t : St, t.ernte t.akf = 0 → zeit + 1 = t.ernte2 t.akf →
+      ((forcedHarvest2 zeit (harvestBlock zeit em ht t)).ernte t.akf = zeit ∨
+       (forcedHarvest2 zeit (harvestBlock zeit em ht t)).ernte t.akf = zeit + 1) := by
+    intro t ht0 hte
+    unfold forcedHarvest2 harvestBlock forcedHarvest1 autoHarvest pushNextSowing
+    cases em <;> cases ht <;> simp [ht0, hte, setErnte, setErnteBoth, upd] <;> (repeat' split) <;> simp_all [upd]
+  have := key (sowEvent zeit s) (by rw [e1, e3]; exact h0) (by rw [e2, e3]; exact he)
+  unfold phyto
+  simp only [hg, if_true]
+  rw [e3] at this
+  exact this
+
 /-! ### rotation order and crop records -/
 
 /-- One harvest step without the skipped-crop branch: the record written carries the index of the
